@@ -110,6 +110,16 @@ def check_override(ctx, F):
         ctx.instance("C02.override", site, {"function": site, "loc": F.floc(fid), "ancestor_loops_that_mark": len(marking), "of_which_can_retarget": sum(marking)})
         if not marking:
             raise AnalysisBroken("%s: no loop marks compoRemains - the rule does not know this shape" % site)
+        # the walk decides level by level, bottom-up, and stops re-targeting (`break`) at the first level that is already on the path with nothing
+        # requested.  A level *above* may still hold an earlier request that re-enters the path (requested == prong): the levels below it that
+        # were left without a request are then re-entered by kind, not towards the destination - the later request is lost
+        early = [x for l in loops for x in walk(l.get("b") or {}) if x.get("k") == "break"]
+        ctx.instance("C02.override", site + "/early-stop", {"function": site, "loc": F.floc(fid), "early_exits_of_the_ancestor_walk": len(early)})
+        if early:
+            ctx.violation("C02.override", site + "/early-stop", "%s (%s)" % (site, F.floc(fid)),
+                          "the ancestor walk stops re-targeting at the first level already on the destination's path: when an earlier request of the batch "
+                          "re-enters a region further up (changeTo<U>() followed by a request deep inside U's active branch), the levels in between are "
+                          "left without a request and the region is re-entered by kind - the later request is lost", {})
         if not all(marking):
             ctx.violation("C02.override", site, "%s (%s)" % (site, F.floc(fid)),
                           "a loop over the composite ancestors marks them (compoRemains.set) but never writes their compoRequested: a region that an earlier "
